@@ -80,6 +80,7 @@ func plans(id, tier string) (Plan, bool) {
 			{Pkg: pkgV2, Harness: "c04_maporder_small", Instr: "v2map", Params: map[bool]string{false: "maxlen=3;deviations=2", true: "maxlen=5;deviations=2"}[th], Shards: pick(4, 16)},
 			{Pkg: pkgV2, Harness: "c04_maporder_corpus", Instr: "v2map", Shards: pick(8, 16)},
 			{Pkg: pkgV2, Harness: "c04_history", Shards: pick(4, 12)},
+			{Pkg: pkgV2, Harness: "c04_history", Params: "trace=wildcard", Shards: pick(4, 12)},
 			{Pkg: pkgV2, Harness: "c04_config", Shards: pick(4, 8)},
 			{Pkg: pkgV2, Harness: "c04_trace", Shards: pick(4, 8)},
 			{Pkg: pkgV2, Harness: "c04_processes", Shards: 1, MaxProcs: 4},
@@ -141,6 +142,11 @@ func plans(id, tier string) (Plan, bool) {
 			// access profile: every field of the package's struct types and every package variable is a
 			// monitored location; a write that is unordered with another call's access is a violation
 			jobs = append(jobs, Job{Pkg: pkgV2, Harness: "c09_sched", Instr: "v2access", Params: fmt.Sprintf("scenario=%d;threads=2;policy=delay;budget=1;maxsite=100000;monitor=access", sc), Shards: 2})
+		}
+		// trace configurations (wildcard license patterns without a phase; everything traced to a no-op)
+		for _, tr := range []string{"wildcard", "all"} {
+			jobs = append(jobs, Job{Pkg: pkgV2, Harness: "c09_sched", Instr: "v2access", Params: fmt.Sprintf("scenario=1;threads=2;policy=delay;budget=1;maxsite=100000;monitor=access;trace=%s", tr), Shards: 2})
+			jobs = append(jobs, Job{Pkg: pkgV2, Harness: "c09_sched", Instr: "v2coarse", Params: fmt.Sprintf("scenario=0;threads=2;policy=delay;budget=%d;trace=%s", pick(1, 2), tr), Shards: 2})
 		}
 		jobs = append(jobs, Job{Pkg: pkgV2, Harness: "c09_access_corpus", Instr: "v2access", Shards: 16})
 		if th {
